@@ -105,20 +105,25 @@ func InjectDiagnostics(content string, diags []Diagnostic, color output.Color) s
 				if !ok {
 					continue
 				}
+				// A value can be made of many ranges on the same line, write one character
+				// for each column no matter how many of them there are.
+				var before, inside bool
 				for _, pos := range diagPositions[i] {
 					if pos.Line != lineIndex+1 {
 						continue
 					}
-					before := pos.FirstColumn > columnIndex+1
-					inside := pos.FirstColumn <= columnIndex+1 && pos.LastColumn >= columnIndex+1
-					switch {
-					case before:
-						nextLine[i].WriteRune(' ')
-					case inside && disablePoints[i]:
-						nextLine[i].WriteRune(' ')
-					case inside && !disablePoints[i]:
-						nextLine[i].WriteRune('^')
+					if pos.FirstColumn > columnIndex+1 {
+						before = true
 					}
+					if pos.FirstColumn <= columnIndex+1 && pos.LastColumn >= columnIndex+1 {
+						inside = true
+					}
+				}
+				switch {
+				case inside && !disablePoints[i]:
+					nextLine[i].WriteRune('^')
+				case inside, before:
+					nextLine[i].WriteRune(' ')
 				}
 			}
 		}
